@@ -43,7 +43,17 @@ func Load(patterns []string) (*Loaded, error) {
 	l := &Loaded{Pkgs: pkgs, Prog: prog, SSA: sp, Fset: pkgs[0].Fset, Funcs: map[string]*ssa.Function{}}
 	for fn := range ssautil.AllFunctions(prog) {
 		if inModule(fn) {
-			l.Funcs[contractKey(fn)] = fn
+			k := contractKey(fn)
+			// generic functions: verify an instantiation (the generic body itself has type parameters);
+			// among instances the lexically smallest name wins, for determinism
+			if old, ok := l.Funcs[k]; ok {
+				oldGeneric := old.TypeParams().Len() > 0 && len(old.TypeArgs()) == 0
+				newGeneric := fn.TypeParams().Len() > 0 && len(fn.TypeArgs()) == 0
+				if newGeneric || (!oldGeneric && old.String() <= fn.String()) {
+					continue
+				}
+			}
+			l.Funcs[k] = fn
 		}
 	}
 	l.Dur = time.Since(t0)
